@@ -35,7 +35,9 @@ def _java_tmp():
 
 def java_cmd(xmx="3g", xss="512m", extra=(), gc="-XX:+UseSerialGC"):
   # java.io.tmpdir: TLC creates an (empty) tlc-<n> directory per run there; keep it inside our scratch area
-  tmp = _java_tmp()
+  # one directory per JVM: JVMs that share a java.io.tmpdir occasionally lose their tlc-<n> directory
+  # to each other's clean-up (FileNotFoundException .../tlc-<n>/TLC.tla, exit code 75)
+  tmp = tempfile.mkdtemp(prefix="jvm-", dir=_java_tmp())
   return ["java", gc, "-Xmx" + xmx, "-Xss" + xss, "-Djava.io.tmpdir=" + tmp] + list(extra) + \
          ["-cp", TLA_CP, "tlc2.TLC"]
 
